@@ -122,7 +122,7 @@ func c17(w *core.World, r *core.Report) {
 			r.Check(cl != nil && val != nil && core.InstrBefore(val, cl), "JOIN", core.Site(a, "close after Validate returned"), w.Pos(a.Pos()), "closing earlier loses verdicts (send on closed channel panics)")
 		}
 		collects := false
-		for _, b := range rootValidate.Blocks {
+		for _, b := range core.Blocks(rootValidate) {
 			for _, in := range b.Instrs {
 				if u, ok := in.(*ssa.UnOp); ok && u.Op.String() == "<-" && u.CommaOk && core.OnCycle(u) {
 					collects = true
